@@ -38,7 +38,7 @@ fn flip_candidates(w2: &W2Prog) -> Vec<Item> {
     v
 }
 
-const WORLD_DIMS: &[&str] = &["rand", "stdout", "stderr", "merged", "spelling", "cwd_name", "file_name", "rel"];
+const WORLD_DIMS: &[&str] = &["rand", "stdout", "stderr", "merged", "spelling", "cwd_name", "file_name", "rel", "env_kind", "locale", "stdin"];
 
 pub struct SinkFault {
     pub j: usize,       // model index of the print in flight
@@ -281,7 +281,7 @@ impl Property for C17 {
                     }
                 }
             }
-            let mut world = if rng.chance(1, 3) { World::random(rng, &["rand", "spelling", "file_name", "cwd_name", "rel", "stdout", "stderr", "merged"]) } else { World::reference() };
+            let mut world = if rng.chance(1, 3) { World::random(rng, &["rand", "spelling", "file_name", "cwd_name", "rel", "stdout", "stderr", "merged", "env_kind", "locale"]) } else { World::reference() };
             // a closed fd swallows writes silently (std treats EBADF on stdio as success): not a sink-fault world
             if world.stdout == 3 {
                 world.stdout = 5;
